@@ -86,6 +86,10 @@ func runC06(c *Ctx) {
 		evalopts.EnvVariable("vff", fhir.Boolean(false)),
 		evalopts.EnvVariable("vfm", system.Collection{fhir.Boolean(false), fhir.Boolean(true)}),
 		evalopts.EnvVariable("pf", patientF),
+		// Boolean elements that also carry an extension / an id are Booleans like the others
+		evalopts.EnvVariable("pfx", mustResource(`{"resourceType":"Patient","id":"p3","active":false,"_active":{"id":"a1","extension":[{"url":"http://example.org/x","valueString":"why"}]},"deceasedBoolean":true,"_deceasedBoolean":{"extension":[{"url":"http://example.org/y","valueCode":"c"}]}}`)),
+		evalopts.EnvVariable("vfx", &dtpb.Boolean{Value: false, Extension: []*dtpb.Extension{{Url: fhir.URI("http://example.org/x"), Value: &dtpb.Extension_ValueX{Choice: &dtpb.Extension_ValueX_StringValue{StringValue: fhir.String("why")}}}}}),
+		evalopts.EnvVariable("vtx", &dtpb.Boolean{Value: true, Id: fhir.String("t1")}),
 		// single items that are not Booleans: some look like one, some have no System value at all
 		evalopts.EnvVariable("vq", &dtpb.Quantity{Unit: fhir.String("mg")}),
 		evalopts.EnvVariable("vd", &dtpb.Decimal{Value: ""}),
@@ -108,6 +112,10 @@ func runC06(c *Ctx) {
 		{"Patient.name.exists()", "true", "function"}, {"Patient.name.empty()", "false", "function"}, {"Patient.name.where(false)", "empty", "function"},
 		{"Patient.name.count()", "other", "function"}, {"Patient.name.select(family.exists())", "multi", "function"},
 		{"true.not()", "false", "function"}, {"Patient.active.not()", "false", "function"},
+		{"%pfx.active", "false", "element"}, {"%pfx.deceased", "true", "element"}, {"%vfx", "false", "element"}, {"%vtx", "true", "element"},
+		// operands that contain other operators and operator names
+		{"(true xor false)", "true", "computed"}, {"(true xor true)", "false", "computed"}, {"(false implies false)", "true", "computed"}, {"(true implies false)", "false", "computed"},
+		{"(false and true)", "false", "computed"}, {"'xor'", "other", "literal"}, {"'or'", "other", "literal"}, {"('and' = 'and')", "true", "computed"}, {"'implies'", "other", "literal"},
 		// a single non-Boolean item is true in a Boolean context, whatever it looks like
 		{"'false'", "other", "literal"}, {"'true'", "other", "literal"}, {"0", "other", "literal"}, {"0.0", "other", "literal"}, {"'no'", "other", "literal"}, {"'F'", "other", "literal"},
 		{"%vq", "other", "variable"}, {"%vd", "other", "variable"}, {"%vfs", "other", "variable"}, {"%vi0", "other", "variable"}, {"(1 - 1)", "other", "computed"},
